@@ -336,14 +336,17 @@ fn run_queue(script: &Value) -> Value {
 #[cfg(pricelevel_verif)]
 fn run_concurrent(script: &Value) -> Value {
     use std::sync::{Condvar, Mutex};
+    // well-nested schedules of up to four threads: thread i+1 runs completely after thread i has performed
+    // `switch_at[i+1]` shared-memory steps (null: it runs after the outermost thread has finished)
     struct Sch {
-        turn: char,
-        a_steps: usize,
-        switch_at: Option<usize>,
-        b_done: bool,
-        switched: bool,
+        turn: usize,
+        steps: Vec<usize>,
+        switch_at: Vec<Option<usize>>,
+        started: Vec<bool>,
+        done: Vec<bool>,
+        by_hook: Vec<bool>,
     }
-    thread_local! { static WHO: std::cell::Cell<char> = const { std::cell::Cell::new('-') }; }
+    thread_local! { static WHO: std::cell::Cell<usize> = const { std::cell::Cell::new(usize::MAX) }; }
     let price = script["price"].as_u64().unwrap();
     let ns = Uuid::from_str(script["namespace"].as_str().unwrap()).unwrap();
     let mut level = Arc::new(PriceLevel::new(price));
@@ -356,6 +359,8 @@ fn run_concurrent(script: &Value) -> Value {
         apply(&mut level, &generator, op);
     }
     let threads = script["threads"].as_array().unwrap().clone();
+    let n = threads.len();
+    let names = ["A", "B", "C", "D"];
     let queue_only = script["queue_only"].as_bool().unwrap_or(false);
     // bare queue: the same set-up translated to queue calls (add -> push, same-quantity amend -> remove + push, cancel -> remove)
     let bare = Arc::new(OrderQueue::new());
@@ -375,42 +380,50 @@ fn run_concurrent(script: &Value) -> Value {
             }
         }
     }
-    let switch_at = script["schedule"]["B"].as_u64().map(|x| x as usize);
-    let sch = Arc::new((Mutex::new(Sch { turn: 'A', a_steps: 0, switch_at, b_done: threads.len() < 2, switched: false }), Condvar::new()));
+    let mut switch_at = vec![None; n];
+    for i in 1..n {
+        switch_at[i] = script["schedule"][names[i]].as_u64().map(|x| x as usize);
+    }
+    let sch = Arc::new((
+        Mutex::new(Sch { turn: 0, steps: vec![0; n], switch_at, started: vec![false; n], done: vec![false; n], by_hook: vec![false; n] }),
+        Condvar::new(),
+    ));
     let s2 = sch.clone();
     pricelevel::verif_hooks::set_yield_hook(Some(Box::new(move |_site| {
-        let who = WHO.with(|w| w.get());
-        if who != 'A' {
+        let i = WHO.with(|w| w.get());
+        if i == usize::MAX {
             return;
         }
         let (m, cv) = &*s2;
         let mut g = m.lock().unwrap();
-        if !g.b_done && g.switch_at == Some(g.a_steps) {
-            g.turn = 'B';
-            g.switched = true;
+        let c = i + 1;
+        if c < g.started.len() && !g.started[c] && g.switch_at[c] == Some(g.steps[i]) {
+            g.started[c] = true;
+            g.by_hook[c] = true;
+            g.turn = c;
             cv.notify_all();
-            while !g.b_done {
+            while !g.done[c] {
                 g = cv.wait(g).unwrap();
             }
         }
-        g.a_steps += 1;
+        g.steps[i] += 1;
     })));
     let mut handles = Vec::new();
     for (i, op) in threads.iter().enumerate() {
-        let name = if i == 0 { 'A' } else { 'B' };
         let mut l2 = level.clone();
         let g2 = generator.clone();
         let op2 = op.clone();
         let sc = sch.clone();
         let bare2 = bare.clone();
         handles.push(std::thread::spawn(move || {
-            WHO.with(|w| w.set(name));
+            WHO.with(|w| w.set(i));
             let (m, cv) = &*sc;
-            if name == 'B' {
+            {
                 let mut g = m.lock().unwrap();
-                while g.turn != 'B' {
+                while g.turn != i {
                     g = cv.wait(g).unwrap();
                 }
+                g.started[i] = true;
             }
             let bq = bare2.clone();
             let r = std::panic::catch_unwind(std::panic::AssertUnwindSafe(|| {
@@ -430,12 +443,14 @@ fn run_concurrent(script: &Value) -> Value {
                 }
             }));
             let mut g = m.lock().unwrap();
-            if name == 'A' {
-                // A finished: if B has not run yet it runs now
-                g.turn = 'B';
+            g.done[i] = true;
+            if g.by_hook[i] {
+                // the parent is waiting inside its hook
+                g.turn = i - 1;
             } else {
-                g.b_done = true;
-                g.turn = 'A';
+                // next thread that has not run yet (it runs after everything that ran so far)
+                let next = (0..g.started.len()).find(|&j| !g.started[j]);
+                g.turn = next.unwrap_or(usize::MAX - 1);
             }
             cv.notify_all();
             drop(g);
@@ -447,8 +462,7 @@ fn run_concurrent(script: &Value) -> Value {
     }
     let mut results = serde_json::Map::new();
     for (i, h) in handles.into_iter().enumerate() {
-        let name = if i == 0 { "A" } else { "B" };
-        results.insert(name.to_string(), h.join().unwrap_or(json!({"panic": true})));
+        results.insert(names[i].to_string(), h.join().unwrap_or(json!({"panic": true})));
     }
     pricelevel::verif_hooks::set_yield_hook(None);
     let (m, _) = &*sch;
@@ -457,7 +471,8 @@ fn run_concurrent(script: &Value) -> Value {
     if queue_only {
         state["orders"] = bare.to_vec().iter().map(|o| order_json(o)).collect::<Vec<_>>().into();
     }
-    json!({"threads": results, "state": state, "a_steps": g.a_steps, "switched_inside": g.switched})
+    let inside: Vec<bool> = g.by_hook.clone();
+    json!({"threads": results, "state": state, "steps": g.steps, "switched_inside": inside.get(1).copied().unwrap_or(false), "nested": inside})
 }
 
 #[cfg(not(pricelevel_verif))]
